@@ -111,7 +111,7 @@ def _collect_codes() -> set:
 
 def _instrument() -> None:
     """(Re)scan loaded xknx modules and enable local events on their code objects."""
-    n = sum(1 for m in sys.modules if m == "xknx" or m.startswith("xknx."))
+    n = len(sys.modules)  # cheap change detector; a rescan is only needed when modules were imported
     if n == _State.n_modules:
         return
     _State.n_modules = n
